@@ -1,2 +1,4 @@
 #!/usr/bin/env bash
-exec "$(dirname "${BASH_SOURCE[0]}")/plain.sh" C12 "$@"
+D="$(dirname "${BASH_SOURCE[0]}")"
+"$D/plain.sh" C12 "$@" || exit $?
+exec "$D/loglevel.sh" C12 "$@"
